@@ -242,6 +242,9 @@ pub struct Connection {
     stats: ConnectionStats,
     /// QUIC version used for the connection.
     version: u32,
+    /// Raw frame bytes to append to the next packet of a packet number space (verification hook)
+    #[cfg(quinn_rs_quinn_verif)]
+    verif_inject: Vec<(SpaceId, Vec<u8>)>,
 }
 
 impl Connection {
@@ -359,6 +362,8 @@ impl Connection {
             rng,
             stats: ConnectionStats::default(),
             version,
+            #[cfg(quinn_rs_quinn_verif)]
+            verif_inject: Vec::new(),
         };
         if path_validated {
             this.on_path_validated();
@@ -3246,6 +3251,18 @@ impl Connection {
             buf.write(frame::FrameType::PING);
             sent.non_retransmits = true;
             self.stats.frame_tx.ping += 1;
+        }
+
+        // Verification hook: raw, possibly hostile, frames queued for this space
+        #[cfg(quinn_rs_quinn_verif)]
+        if !is_0rtt {
+            if let Some(i) = self.verif_inject.iter().position(|(s, _)| *s == space_id) {
+                if buf.len() + self.verif_inject[i].1.len() + 64 < max_size {
+                    let (_, bytes) = self.verif_inject.remove(i);
+                    buf.extend_from_slice(&bytes);
+                    sent.non_retransmits = true;
+                }
+            }
         }
 
         // IMMEDIATE_ACK
